@@ -201,8 +201,9 @@ def genericM : List Member → List Member
 end
 
 /-! ### commonType -/
-/-- `NewEnumType`: values are lower-cased when case-insensitive -/
-def mkEnum (vs : List String) (ci : Bool) : Ty := .enum (if ci then vs.map cfg.lower else vs) ci
+/-- `NewEnumType`: values are lower-cased when case-insensitive; no values → the default Enum -/
+def mkEnum (vs : List String) (ci : Bool) : Ty :=
+  if vs.isEmpty then .enum [] false else .enum (if ci then vs.map cfg.lower else vs) ci
 /-- `NewStringType(rng, "")` -/
 def mkStr (r : Rng) : Ty := if r == Rng.pos then .str else .strSz r
 /-- `NewVariantType(ts...)` -/
